@@ -704,6 +704,17 @@ def corpus_cases():
     return out
 
 
+def known_entries(ctx):
+    """the listed findings of this property (ctx.known(); falls back to reading known/C12.json itself when some other
+    file under known/ is not a list of entries)"""
+    try:
+        return ctx.known()
+    except Exception:
+        p = os.path.join(VERIF, "known", "C12.json")
+        es = json.load(open(p)) if os.path.exists(p) else []
+        return [k for k in es if isinstance(k, dict) and k.get("property") == "C12" and k.get("status") == "finding"]
+
+
 def describe(r):
     return {"levels": {str(lv): {"stdout": o[0][-400:], "exception": o[1], "exit": o[2]} for lv, o in zip(LEVELS, r.cli)},
             "removed": r.removed}
@@ -765,7 +776,7 @@ def run(ctx):
 
 
 def report(ctx, proof, h, model, erg, cases, results):
-    known = {k.get("class"): k for k in ctx.known() if k.get("class")}
+    known = {k.get("class"): k for k in known_entries(ctx) if k.get("class")}
     n_tree = n_beh = n_invalid = n_unpred = n_unsound = 0
     first_tree = first_beh = first_unsound = None
     viol = []
